@@ -391,3 +391,48 @@ def expected_clip_ids(spec):
             if c.get("alt_pred_tags") is not None:
                 out.append(str(_u("clip", ci)))
     return out
+
+
+def corrected_annotation(spec, rng):
+    """-> (spec2, ci): the same case with ONE evaluated clip's annotation corrected (its true tags re-drawn / swapped
+    between its events); None when there is nothing to correct."""
+    import copy
+
+    both = [i for i, c in enumerate(spec["clips"]) if c["only"] == "both"]
+    if not both:
+        return None
+    spec2 = copy.deepcopy(spec)
+    # prefer a clip in which the correction matters to the result: events on both sides
+    rich = [i for i in both if any(e["kind"] != "pred" for e in spec["clips"][i]["events"]) and any(e["kind"] != "ann" for e in spec["clips"][i]["events"])]
+    ci = rng.choice(rich or both)
+    c = spec2["clips"][ci]
+    pool = all_tags()
+    if spec["task"].startswith("clip_"):
+        new = _true_tags(rng, spec["vocab"], pool, multilabel=spec["task"] == "clip_multilabel_classification")
+        if new == c["ann_tags"]:
+            new = [t for t in spec["vocab"] if t not in c["ann_tags"]][:1]
+        c["ann_tags"] = new
+    else:
+        evs = [e for e in c["events"] if e["kind"] in ("ann", "both_same_event") and e.get("shared") is None]
+        if not evs:
+            return None
+        for e in evs:
+            # the corrected label is another class than before (an unlabelled event gets a label)
+            y = true_class(spec["vocab"], e["ann_tags"])
+            e["ann_tags"] = [rng.choice([t for k, t in enumerate(spec["vocab"]) if k != y])]
+            if spec["task"] == "sound_event_detection" and e.get("geom") is not None and rng.random() < 0.6:
+                # ... and the corrected annotation draws the event somewhere else (it no longer meets the predictions)
+                e["geom"] = geoms.shift_time(e["geom"], 700.0)
+    return spec2, ci
+
+
+def replace_annotation_in_list(cas, spec2, ci):
+    """Replace, IN the caller's list object, the clip annotation of clip ``ci`` by the corrected one (same length)."""
+    _, cas2, _, idx2 = build(spec2)
+    target = str(_u("clip", ci))
+    new = next(ca for ca in cas2 if str(ca.clip.uuid) == target)
+    for p_, ca in enumerate(cas):
+        if str(ca.clip.uuid) == target:
+            cas[p_] = new
+            return idx2
+    return None
